@@ -85,10 +85,12 @@ func evaluate(sc scenario, c Case) (map[string]int, error) {
 		if err != nil {
 			return counts, fmt.Errorf("%s, seed %d: %v", sc.name, c.Base+int64(i), err)
 		}
-		if _, ok := sc.cells[o]; !ok {
-			return counts, fmt.Errorf("%s, seed %d: outcome %q is not one of the %d possible outcomes", sc.name, c.Base+int64(i), o, len(sc.cells))
+		if sc.cells != nil {
+			if _, ok := sc.cells[o]; !ok {
+				return counts, fmt.Errorf("%s, seed %d: outcome %q is not one of the %d possible outcomes", sc.name, c.Base+int64(i), o, len(sc.cells))
+			}
+			counts[o]++
 		}
-		counts[o]++
 		if sc.margin != nil {
 			for _, m := range sc.margin(o) {
 				mcounts[m]++
@@ -246,6 +248,27 @@ func allTopologies(n int, rooted bool) []string {
 	return out
 }
 
+// unrootedCherryForm re-hangs an unrooted tree (root of degree 3) on an inner node that is not
+// part of a cherry when the root itself has two tip children (then those two tips are a cherry of
+// the unrooted tree only if the root has degree 3, which the re-hanging makes explicit).
+func unrootedCherryForm(m *ref.Node) *ref.Node {
+	tipch := 0
+	for _, c := range m.Ch {
+		if c.IsTip() {
+			tipch++
+		}
+	}
+	if tipch < 2 || len(m.Ch) != 3 {
+		return m
+	}
+	for _, c := range m.Ch {
+		if !c.IsTip() {
+			return ref.RerootAt(m, c)
+		}
+	}
+	return m
+}
+
 func canon(m *ref.Node, rooted bool) string {
 	if rooted {
 		return ref.CanonRooted(m)
@@ -350,6 +373,106 @@ func scenarios() []scenario {
 			}})
 		}
 	}
+	// larger sizes: the outcome space is too large to test cell by cell; marginal events with known
+	// probabilities are tested instead
+	for _, n := range []int{8, 20} {
+		n := n
+		var names []string
+		for i := 0; i < n; i++ {
+			names = append(names, fmt.Sprintf("t%02d", i))
+		}
+		text := "(" + strings.Join(names, ",") + ");"
+		mc := map[string]float64{}
+		for i := 0; i < n; i++ {
+			for j := 0; j < n; j++ {
+				mc[fmt.Sprintf("position %d gets %s", i, names[j])] = 1 / float64(n)
+			}
+		}
+		pos := func(o string) []string {
+			var ev []string
+			for i, nm := range strings.Split(o, ",") {
+				ev = append(ev, fmt.Sprintf("position %d gets %s", i, nm))
+			}
+			return ev
+		}
+		out = append(out, scenario{name: fmt.Sprintf("ShuffleTips n=%d (position x name marginals)", n), margin: pos, mcells: mc, run: func(seed int64) (string, error) {
+			t, err := gt.Parse(text)
+			if err != nil {
+				return "", err
+			}
+			rand.Seed(seed)
+			t.ShuffleTips()
+			var got []string
+			for _, tip := range t.Tips() {
+				got = append(got, tip.Name())
+			}
+			return strings.Join(got, ","), nil
+		}})
+		out = append(out, scenario{name: fmt.Sprintf("RotateNeighbors degree=%d (position x neighbour marginals)", n), margin: pos, mcells: mc, run: func(seed int64) (string, error) {
+			t, err := gt.Parse(text)
+			if err != nil {
+				return "", err
+			}
+			rand.Seed(seed)
+			t.Root().RotateNeighbors()
+			var got []string
+			for _, nb := range t.Root().Neigh() {
+				got = append(got, nb.Name())
+			}
+			return strings.Join(got, ","), nil
+		}})
+	}
+	for _, rooted := range []bool{false, true} {
+		for _, n := range []int{9, 14} {
+			n, rooted := n, rooted
+			// P(tips i and j form a cherry) = 1/(2n-5) for unrooted, 1/(2n-3) for rooted labelled binary trees
+			p := 1 / float64(2*n-5)
+			if rooted {
+				p = 1 / float64(2*n-3)
+			}
+			mc := map[string]float64{}
+			for i := 0; i < n; i++ {
+				for j := i + 1; j < n; j++ {
+					mc[fmt.Sprintf("cherry Tip%d Tip%d", i, j)] = p
+				}
+			}
+			out = append(out, scenario{name: fmt.Sprintf("RandomUniformBinaryTree n=%d rooted=%v (cherry marginals)", n, rooted), mcells: mc,
+				margin: func(o string) []string {
+					if o == "" {
+						return nil
+					}
+					return strings.Split(o, ";")
+				},
+				run: func(seed int64) (string, error) {
+					rand.Seed(seed)
+					t, err := tree.RandomUniformBinaryTree(n, rooted)
+					if err != nil {
+						return "", err
+					}
+					m, err := ref.Parse(t.Newick())
+					if err != nil {
+						return "", err
+					}
+					if !rooted {
+						// a cherry of the unrooted tree may straddle the pseudo-root: re-hang the tree so that
+						// every cherry is a node with exactly two tip children
+						m = unrootedCherryForm(m)
+					}
+					var ev []string
+					m.Walk(func(x, p *ref.Node) {
+						if len(x.Ch) == 2 && x.Ch[0].IsTip() && x.Ch[1].IsTip() {
+							a, _ := strconv.Atoi(strings.TrimPrefix(x.Ch[0].Name, "Tip"))
+							b, _ := strconv.Atoi(strings.TrimPrefix(x.Ch[1].Name, "Tip"))
+							if a > b {
+								a, b = b, a
+							}
+							ev = append(ev, fmt.Sprintf("cherry Tip%d Tip%d", a, b))
+						}
+					})
+					return strings.Join(ev, ";"), nil
+				}})
+		}
+	}
 	if !cli.Available() {
 		return out
 	}
@@ -424,6 +547,56 @@ func scenarios() []scenario {
 			return strings.Join(sel, ","), nil
 		}})
 	}
+	for _, nk := range [][2]int{{20, 5}, {12, 11}} {
+		n, k := nk[0], nk[1]
+		input := numberedTrees(n)
+		mf, mc := inclusion(n, k)
+		out = append(out, scenario{name: fmt.Sprintf("gotree sample -n %d on %d trees (inclusion marginals)", k, n), cli: true, margin: mf, mcells: mc, run: func(seed int64) (string, error) {
+			r := cli.Run(cli.Scratch(), input, "sample", "-n", strconv.Itoa(k), "--seed", strconv.FormatInt(seed, 10))
+			if r.Code != 0 {
+				return "", fmt.Errorf("exit %d: %s", r.Code, r.Stderr)
+			}
+			ids, err := treeIDs(r.Stdout)
+			if err == nil && len(ids) != k {
+				err = fmt.Errorf("%d trees sampled, %d requested", len(ids), k)
+			}
+			return strings.Join(ids, ","), err
+		}})
+		var tn []string
+		for i := 0; i < n; i++ {
+			tn = append(tn, "t"+strconv.Itoa(i))
+		}
+		tinput := "(" + strings.Join(tn, ",") + ");\n"
+		kk := k
+		if n-kk < 3 {
+			kk = n - 3
+		}
+		mf2, mc2 := inclusion(n, kk)
+		out = append(out, scenario{name: fmt.Sprintf("gotree prune --random %d on %d tips (inclusion marginals)", kk, n), cli: true, margin: mf2, mcells: mc2, run: func(seed int64) (string, error) {
+			r := cli.Run(cli.Scratch(), tinput, "prune", "--random", strconv.Itoa(kk), "--seed", strconv.FormatInt(seed, 10))
+			if r.Code != 0 {
+				return "", fmt.Errorf("exit %d: %s", r.Code, r.Stderr)
+			}
+			m, err := ref.Parse(strings.TrimSpace(r.Stdout))
+			if err != nil {
+				return "", err
+			}
+			left := map[string]bool{}
+			for _, tip := range m.Tips() {
+				left[tip] = true
+			}
+			var sel []string
+			for i, nm := range tn {
+				if !left[nm] {
+					sel = append(sel, strconv.Itoa(i))
+				}
+			}
+			if len(sel) != kk {
+				return "", fmt.Errorf("%d tips removed, %d requested", len(sel), kk)
+			}
+			return strings.Join(sel, ","), nil
+		}})
+	}
 	names := []string{"a", "b", "c", "d"}
 	out = append(out, scenario{name: "gotree shuffletips n=4", cli: true, cells: uniform(perms(names)), run: func(seed int64) (string, error) {
 		r := cli.Run(cli.Scratch(), "(a,b,c,d);\n", "shuffletips", "--seed", strconv.FormatInt(seed, 10))
@@ -486,7 +659,7 @@ func TestC20Sweeps(t *testing.T) {
 			counts, e = evaluate(sc, c)
 			return e
 		})
-		nontrivial := len(sc.cells) >= 3
+		nontrivial := len(sc.cells) >= 3 || len(sc.mcells) >= 3
 		// one evaluation per seed; the distinct non-trivial cases are the distinct (scenario, seed) pairs
 		for j := 0; j < c.N; j++ {
 			r.Eval(map[string]any{"scenario": sc.name, "seed": c.Base + int64(j)}, nontrivial, "scenario:"+sc.name)
